@@ -82,6 +82,8 @@ type Builder struct {
 	suffixData *model.SuffixDataModel
 	// WinOverride, when set, replaces the window class of the shape by explicit (anchorFrom, anchorUntil) values.
 	WinOverride *[2]int64
+	// Origin is the anchor origin embedded in the create's suffix data and in recover requests.
+	Origin interface{}
 	// Extra patches are appended to every delta this builder produces (used to make requests version-specific).
 	Extra []patch.Patch
 }
@@ -113,17 +115,22 @@ func NewBuilder(keys *Keys, base Shape) (*Builder, error) {
 
 // NewBuilderExtra is NewBuilder with extra patches appended to every delta (including the base create's).
 func NewBuilderExtra(keys *Keys, base Shape, extra []patch.Patch) (*Builder, error) {
+	return NewBuilderOrigin(keys, base, extra, nil)
+}
+
+// NewBuilderOrigin additionally embeds an anchor origin in the create's suffix data and in every recover.
+func NewBuilderOrigin(keys *Keys, base Shape, extra []patch.Patch, origin interface{}) (*Builder, error) {
 	delta := &model.DeltaModel{UpdateCommitment: keys.C(base.Nuc), Patches: append(DeltaPatches(base.Dl, base.P), extra...)}
 	dh, err := hashing.CalculateModelMultihash(delta, keys.Hash)
 	if err != nil {
 		return nil, err
 	}
-	sd := &model.SuffixDataModel{DeltaHash: dh, RecoveryCommitment: keys.C(base.Nrc)}
+	sd := &model.SuffixDataModel{DeltaHash: dh, RecoveryCommitment: keys.C(base.Nrc), AnchorOrigin: origin}
 	sfx, err := hashing.CalculateModelMultihash(sd, keys.Hash)
 	if err != nil {
 		return nil, err
 	}
-	return &Builder{Keys: keys, Suffix: sfx, suffixData: sd, Extra: extra}, nil
+	return &Builder{Keys: keys, Suffix: sfx, suffixData: sd, Extra: extra, Origin: origin}, nil
 }
 
 func splitJWS(c string) (h, p, s string) {
@@ -222,7 +229,7 @@ func (b *Builder) Request(sh Shape) ([]byte, error) {
 			from, until = Window("late")
 		}
 		sd := &model.RecoverSignedDataModel{RecoveryKey: emb.JWK, DeltaHash: dh, RecoveryCommitment: ks.C(sh.Nrc),
-			AnchorFrom: from, AnchorUntil: until}
+			AnchorOrigin: b.Origin, AnchorFrom: from, AnchorUntil: until}
 		compact, err := SignCompact(canon(sd), signer)
 		if err != nil {
 			return nil, err
